@@ -3,12 +3,17 @@
 package routing
 
 import (
+	"lunar/engine/config"
 	lunar_messages "lunar/engine/messages"
 	"lunar/engine/metrics"
 	"lunar/engine/runner"
+	"lunar/engine/services"
 	"lunar/engine/streams"
 	stream_config "lunar/engine/streams/config"
 	stream_types "lunar/engine/streams/types"
+
+	"github.com/negasus/haproxy-spoe-go/action"
+	"github.com/negasus/haproxy-spoe-go/message"
 )
 
 // NewVerifStreamsManager builds a streams-mode HandlingDataManager for the
@@ -56,4 +61,27 @@ func (rd *HandlingDataManager) VerifOnResponse(
 	err := runner.RunFlow(stream, apiStream, flowActions)
 	rd.GetMetricManager().UpdateMetricsForFlow(stream)
 	return flowActions, err
+}
+
+// NewVerifPoliciesManager builds a policy-mode HandlingDataManager around an
+// already built configuration and services (no syslog dial, no otel server, no
+// doctor, no diagnosis fail-safe watcher).
+func NewVerifPoliciesManager(
+	buildResult config.BuildResult,
+	policiesServices *services.PoliciesServices,
+) *HandlingDataManager {
+	rd := &HandlingDataManager{policiesServices: policiesServices}
+	rd.configBuildResult = buildResult
+	rd.diagnosisWorker = runner.NewDiagnosisWorker()
+	return rd
+}
+
+// VerifProcessRequest and VerifProcessResponse run the real SPOE entry points
+// (argument decoding included) on one SPOE message.
+func VerifProcessRequest(msg *message.Message, rd *HandlingDataManager) (action.Actions, error) {
+	return processRequest(msg, rd)
+}
+
+func VerifProcessResponse(msg *message.Message, rd *HandlingDataManager) (action.Actions, error) {
+	return processResponse(msg, rd)
 }
